@@ -462,6 +462,35 @@ pub fn gen_driver(prop: &str, rng: &mut Rng, sh: &mut Shards, out: &str, thoroug
                 ("dw", DataForm::Fill(0x4321, 2)), ("db", DataForm::Fill(0x77, 4)), ("dw", DataForm::Zero(2)), ("db", DataForm::Zero(4)),
                 ("dw", DataForm::Str("ab".into())), ("db", DataForm::Str("wxyz".into())),
             ];
+            // a segment filled to exactly 64 KiB (the largest amount that is not refused), over earlier non-zero data
+            let full: Vec<Vec<(&'static str, DataForm)>> = vec![
+                vec![("dw", DataForm::Zero(32768))],
+                vec![("db", DataForm::Zero(65535)), ("db", DataForm::Num(7))],
+                vec![("dw", DataForm::Zero(32767)), ("dw", DataForm::Num(0x1234))],
+                vec![("db", DataForm::Zero(65534)), ("dw", DataForm::Num(-2))],
+                vec![("db", DataForm::Num(9)), ("dw", DataForm::Zero(32767)), ("db", DataForm::Num(8))],
+            ];
+            for seg in [0u32, 0x1000, 0xF800] {
+                for defs in &full {
+                    let mut data: Vec<DataItem> = vec![DataItem::Set(seg), DataItem::Def { label: None, dir: "db", form: DataForm::Fill(0x55, 9) }, DataItem::Set(seg)];
+                    let mut items: Vec<Item> = vec![Item::Label("start".into())];
+                    items.push(Item::Ins(Ins::Mov { w: 16, dst: Opnd::Reg16("ax"), src: Opnd::Imm(seg as i32) }));
+                    items.push(Item::Ins(Ins::Mov { w: 16, dst: Opnd::Sreg("ds"), src: Opnd::Reg16("ax") }));
+                    for (k, (dir, form)) in defs.iter().enumerate() {
+                        let name = format!("full_{}", k);
+                        data.push(DataItem::Def { label: Some(name.clone()), dir, form: form.clone() });
+                        let w: u8 = if *dir == "db" { 8 } else { 16 };
+                        let r = if w == 8 { Opnd::Reg8("bl") } else { Opnd::Reg16("dx") };
+                        items.push(Item::Ins(Ins::Mov { w, dst: r, src: Opnd::Label { name: name.clone(), off: 0 } }));
+                        items.push(Item::Ins(Ins::Mov { w: 16, dst: Opnd::Reg16("cx"), src: Opnd::Offset { name, off: 0 } }));
+                    }
+                    items.push(Item::Ins(Ins::Print { what: PrintWhat::DsSpan(12) }));
+                    let p = Program { data, items, interp: false, stdin: Vec::new(), note: "data-full-segment".into() };
+                    let mut lay = Layout::random(rng);
+                    lay.label_same_line = false;
+                    progs.push((p, lay));
+                }
+            }
             for (seg, room) in [(0xFFFFu32, 16u32), (0xFFFE, 32), (0xFFF0, 256), (0xF001, 0xFFF0)] {
                 for (dir, form) in &kinds {
                     for before in 0..4u32 {
